@@ -151,26 +151,30 @@ def metaRefDump (s : MetaState) : String :=
   let j (xs : List String) : String := if xs.isEmpty then "-" else String.intercalate "," xs
   s!"E={ex} L={lk} list={j list} exp={j exp} ctr={rc.1},{rc.2.1},{rc.2.2.1},{rc.2.2.2.1},{rc.2.2.2.2} info={j info}"
 
+/-- the state change and result code of one operation line (no dump) -/
+def metaApply (s : MetaState) (o : OpLine) : MetaState × String :=
+  let c := (o.nat? "c").getD 0
+  match o.name with
+  | "epoch" => ({ s with epoch := (o.nat? "e").getD 0 }, "=> ok")
+  | "put" =>
+    let (db, e) := dbPut s.db s.epoch c (parseChain o)
+    ({ s with db := db }, "=> " ++ errCode e)
+  | "mark" =>
+    ({ s with db := dbMarkGarbage s.db s.epoch c ((o.nats? "ids").getD []) (o.get? "red" == some "1") }, "=> K")
+  | "inhumecnr" => ({ s with db := dbInhumeContainer s.db c }, "=> K")
+  | "delcnr" => ({ s with db := dbDeleteContainer s.db c }, "=> K")
+  | "delete" => ({ s with db := dbDelete s.db c ((o.nats? "ids").getD []) }, "=> K")
+  | "revive" =>
+    let (db, r) := dbRevive s.db c ((o.nat? "o").getD 0)
+    ({ s with db := db }, match r with
+      | .graveyard t => s!"=> graveyard tomb={t}"
+      | .garbage => "=> garbage"
+      | _ => "=> notrevived")
+  | _ => (s, "=> bad-op")
+
 def metaStep (s : MetaState) (o : OpLine) : MetaState × String :=
   let c := (o.nat? "c").getD 0
-  let (s', res) : MetaState × String :=
-    match o.name with
-    | "epoch" => ({ s with epoch := (o.nat? "e").getD 0 }, "=> ok")
-    | "put" =>
-      let (db, e) := dbPut s.db s.epoch c (parseChain o)
-      ({ s with db := db }, "=> " ++ errCode e)
-    | "mark" =>
-      ({ s with db := dbMarkGarbage s.db s.epoch c ((o.nats? "ids").getD []) (o.get? "red" == some "1") }, "=> K")
-    | "inhumecnr" => ({ s with db := dbInhumeContainer s.db c }, "=> K")
-    | "delcnr" => ({ s with db := dbDeleteContainer s.db c }, "=> K")
-    | "delete" => ({ s with db := dbDelete s.db c ((o.nats? "ids").getD []) }, "=> K")
-    | "revive" =>
-      let (db, r) := dbRevive s.db c ((o.nat? "o").getD 0)
-      ({ s with db := db }, match r with
-        | .graveyard t => s!"=> graveyard tomb={t}"
-        | .garbage => "=> garbage"
-        | _ => "=> notrevived")
-    | _ => (s, "=> bad-op")
+  let (s', res) : MetaState × String := metaApply s o
   -- history condition of the known finding: does this op write a removal mark for an id that is not a
   -- stored physical object?
   let notPhy (cn : Cnr) (id : Nat) : Bool := !((cn.find? id).any (·.phy))
